@@ -120,6 +120,13 @@ pub fn programs(tier: Tier) -> ProgramSet {
         s.syntax.push("result-alias".into());
         add("B3 + v0.disabled + context: `type Result<T>` alias in scope".to_string(), s, &mut out);
     }
+    for (flag, lab) in [("variants-in-scope", "the enum's variants are glob-imported (`use En::*;`)"), ("inherent-methods", "the enum has inherent methods into / clone / eq / get ..")] {
+        let mut s = EnumSpec::base(3);
+        s.name = "En".into();
+        s.variants[2].disabled = true;
+        s.syntax.push(flag.into());
+        add(format!("B3 + v2.disabled + context: {}", lab), s, &mut out);
+    }
     // SCALE: wide tables (more slots than any hand-written test; reduced write alphabet, see explore)
     for n in (if tier == Tier::Quick { vec![9usize] } else { vec![9usize, 12] }) {
         let mut s = EnumSpec::base(0);
